@@ -14,7 +14,7 @@ ENV = dict(os.environ, GOFLAGS="-mod=mod", GOPROXY="off", GOSUMDB="off", GOTOOLC
 # name, file, old, new, package to test, checks expected to catch
 M = [
  ("c01-skip-checkrecord", "sumdb/client.go",
-  "\t\tif err := c.checkRecord(id, text); err != nil {\n\t\t\treturn cached{nil, err}\n\t\t}\n", "\t\t_ = id\n", "./sumdb/", ["C01"]),
+  "\t\tif err := c.checkRecord(id, text); err != nil {\n\t\t\treturn cached{nil, err}\n\t\t}\n", "\t\t_, _ = id, text\n", "./sumdb/", ["C01"]),
  ("c01-cache-before-validate", "sumdb/client.go",
   "\t\t// Validate the record before using it for anything.\n", "\t\tif writeCache {\n\t\t\tc.ops.WriteCache(file, data)\n\t\t\twriteCache = false\n\t\t}\n", "./sumdb/", ["C01"]),
  ("c01-save-full-tile-unvalidated", "sumdb/client.go",
